@@ -4,7 +4,7 @@ Import ListNotations.
 
 Inductive err : Set :=
 | StructError | UnicodeError | IndexError | KeyError | ValueError | AssertionError
-| NotImplementedErr | FileExists | FileNotFound | OsError | TypeError | OutOfFuel.
+| NotImplementedErr | FileExists | FileNotFound | OsError | TypeError | ImportErr | OutOfFuel.
 
 Inductive result (A : Type) : Type :=
 | Ok (a : A)
